@@ -38,6 +38,7 @@ var vTextFams = []vTextFam{
 	20: {"1e", " 7", "01_+-"},                    // float exponents: no digit grouping
 	21: {"2007T", " 7", "0 TZ-:"},                // what may follow a year-precision timestamp
 	22: {"1.", " 7", "05_dD-e"},                  // decimal fractions and exponents
+	23: {"(null", "int)", " ./*\n"},              // null followed by an operator in an s-expression
 }
 
 func vInAlpha(c byte, alpha string) bool {
